@@ -3,7 +3,7 @@ recognise the (narrow) signatures of the open findings listed in known_findings.
 
 PROPS = {}
 NOT_CLAIMED = {}
-HOOK_COMMITS = ["16a14b9", "e75c637", "1973121", "54a7376"]
+HOOK_COMMITS = ["16a14b9", "e75c637", "1973121", "54a7376", "f0d5c66"]
 
 PROPS["C05"] = dict(
     level_text="Bounded-exhaustive model checking of the reader state machine against the reference tokenisation over all inputs up to K "
@@ -308,16 +308,25 @@ PROPS["C08"] = dict(
                "reordered; also when -quit ends the walk); -execdir invocations hold entries of one directory only, as ./basename, run in that "
                "directory; find's status is non-zero iff an invocation failed. TLC validates recorded runs of the real binary: random trees with "
                "hostile names, scripted failures, -quit at a random entry, and bulk runs (hundreds to thousands of 150-200 byte names under a "
-               "512 KiB - 1 MiB stack limit) that force several invocations - an invocation the kernel rejected would show up as lost paths.",
-    level_note="Trusted: TLC; the recorder. The batch boundaries are deliberately unconstrained. Only recorded runs (implementation -> spec); there is "
-               "nothing for TLC to enumerate beyond what C09's model already covers.",
+               "512 KiB - 1 MiB stack limit) that force several invocations - an invocation the kernel rejected would show up as lost paths. "
+               "The command-line builder itself is a machine (FindExecImpl: per-entry directory change -> -execdir dispatch, full command line -> "
+               "dispatch and restart, end of a starting point / -quit -> dispatch of what is pending): MC_ExecImpl checks C08's sentences on every "
+               "sequence of evaluated entries (starting points x entries x directories x reached or not x -quit or not x capacity), and the hooked "
+               "library's events (Eval, XPush, XFlush{dir,full,end}, XRun) are stepped through it - which entries come and where the action and -quit "
+               "are reached is computed from the tree by the reference walk, only 'the command line was full' is taken from the code - after which the "
+               "machine's dispatched command lines must be the recorder's invocations (arguments, order, working directory, outcome).",
+    level_note="Trusted: TLC; the recorder; the event hook (add-only, cfg-guarded). Where a command line is full is deliberately unconstrained "
+               "(bytes, the argmax crate's business).",
+    mc=[dict(module="mc/MC_ExecImpl.tla", cfg=dict(quick="mc/MC_ExecImpl_quick.cfg", thorough="mc/MC_ExecImpl_thorough.cfg"), workers=6)],
+    more=[dict(record_vh="ELOOP", record=dict(quick=150, thorough=2500), trace=dict(module="trace/T_ExecLoop.tla", cfg="trace/T_ExecLoop.cfg"), trace_chunk=60)],
     record=dict(quick=250, thorough=2000),
     selftest=dict(quick=30, thorough=100),
     trace=dict(module="trace/T_Exec.tla", cfg="trace/T_Exec.cfg"),
     trace_chunk=60,
-    rule="trace: random trees (2-15 entries, hostile names) x -exec/-execdir x 0-2 fixed arguments x tests x failure scripts x optional -quit; "
-         "every ninth run a bulk tree under RLIMIT_STACK 512 KiB..1 MiB.",
-    exhaustive_note="",
+    rule="MC_ExecImpl: up to 2 starting points x up to 2 (thorough: 3) evaluated entries each x 2 directories x reached/not x -quit/not x -exec/-execdir x "
+         "capacity 1..2 (3); trace: random trees (2-15 entries, hostile names) x -exec/-execdir x 0-2 fixed arguments x tests x failure scripts x optional -quit; "
+         "every ninth run a bulk tree under RLIMIT_STACK 512 KiB..1 MiB; event traces: the same generator, one action.",
+    exhaustive_note="bounded-exhaustive at model level (the builder machine)",
     assumptions=[],
 )
 
